@@ -193,6 +193,22 @@ func Corpus() []*Schema {
 	extrep.Messages = []M{{Name: "Base", Fields: []F{{"id", 1, "int32", "opt"}}, Ranges: [][2]int32{{100, 200}}},
 		{Name: "H", Fields: []F{{"note", 1, "string", "opt"}}, Ext: rxs}}
 	cs = append(cs, extrep)
+	// repeated proto2 extensions declared [packed=true]: every packable kind (varint, zig-zag, fixed-width, bool, enum), declared
+	// inside a message and at file level, next to an undeclared-packed one; the extendee also sits INSIDE other messages (a
+	// singular field, a list, a map value) so that a nested message carries the extensions
+	extpacked := &Schema{ID: "extpacked", Syntax: "proto2", Enums: []E{color}}
+	var pxs []F
+	for i, k := range ScalarKinds {
+		if isPackable(k) {
+			pxs = append(pxs, F{Name: "x_" + k + "_packed_rep", Num: int32(100 + i), Kind: k, Card: "ext:Base"})
+		}
+	}
+	pxs = append(pxs, F{"x_enum_packed_rep", 120, "enum:Color", "ext:Base"}, F{"x_plain_rep", 121, "int32", "ext:Base"}, F{"x_self_rep", 123, "msg:Base", "ext:Base"})
+	extpacked.Messages = []M{{Name: "Base", Fields: []F{{"id", 1, "int32", "opt"}}, Ranges: [][2]int32{{100, 200}}},
+		{Name: "H", Fields: []F{{"note", 1, "string", "opt"}}, Ext: pxs},
+		{Name: "Holder", Fields: []F{{"base", 1, "msg:Base", "opt"}, {"bases", 2, "msg:Base", "rep"}, {"by", 3, "msg:Base", "map:string"}, {"n", 4, "int32", "opt"}}}}
+	extpacked.FileExt = []F{{"x_top_sint64_packed_rep", 130, "sint64", "ext:Base"}, {"x_top_fixed32_packed_rep", 131, "fixed32", "ext:Base"}, {"x_top_string_rep", 132, "string", "ext:Base"}}
+	cs = append(cs, extpacked)
 	// messages that share a SHORT name in different scopes and differ in what the generator decides per message
 	// (required fields, oneofs, maps, packed enums, implicit floats): Order.Item has required fields, Refund.Item none, …
 	cs = append(cs, &Schema{ID: "shortnames", Syntax: "proto2", Enums: []E{color}, Messages: []M{
